@@ -311,7 +311,7 @@ func run(c *lib.Ctx) error {
 	}
 	c.Assume("TLC is trusted. Primitives evaluated by the executor and given to the specification as data: the parse-error byte ranges of a text (parse.Parse), the completion candidates and replace range at a byte offset (complete.Complete with a fresh Evaler and the default Config, in the same empty directory and with the same PATH as the server child), the documentation text of a builtin (doc.Source)")
 	c.Assume("the offset between CR and LF has no position of its own: index -> position must give the start of the next line (the next offset that has a position), so that a non-empty byte range stays a non-empty position range")
-	c.Assume("Unspecified and accepted either way: where positions past the end of a line / past the last line / between surrogate halves land; result or error for an unknown document; order of publications; hover content except inside an isolated documented command word on an error-free document")
+	c.Assume("Unspecified and accepted either way: which character boundary a position past the end of a line / past the last line / between surrogate halves is normalised to (a completion reply must be the completion at one of them); result or error for an unknown document; order of publications; hover content except inside an isolated documented command word on an error-free document")
 	return nil
 }
 
